@@ -13,6 +13,15 @@ patch = os.path.join(src, "patch%s.diff" % i)
 demo = os.path.join(src, "demo%s_test.go" % i)
 notes = os.path.join(src, "notes%s.md" % i)
 wt = "/tmp/seedev%s-%s-%s" % (rnd, prop, i)
+ROOT = os.path.dirname(os.path.dirname(os.path.abspath(__file__)))
+stored = os.path.join(ROOT, "seeded", tag)
+old_notes = None
+if not os.path.exists(patch) and os.path.exists(os.path.join(stored, "patch.diff")):
+    # the author's scratch output is gone: re-evaluate from what was stored
+    shutil.copy(os.path.join(stored, "patch.diff"), "/tmp/seedev-%s.diff" % tag)
+    shutil.copy(os.path.join(stored, "demo_test.go"), "/tmp/seedev-%s_test.go" % tag)
+    patch, demo = "/tmp/seedev-%s.diff" % tag, "/tmp/seedev-%s_test.go" % tag
+    old_notes = json.load(open(os.path.join(stored, "meta.json"))).get("needs_to_manifest")
 env = dict(os.environ, GOFLAGS="-mod=mod", GOPROXY="off", GOSUMDB="off", GOTOOLCHAIN="local")
 def sh(cmd, cwd=None, extra=None):
     e = dict(env); e.update(extra or {})
@@ -42,10 +51,20 @@ try:
         results = {}
         for c in checks:
             rc, out = sh(["./check", c, "--tier", "quick"], cwd="/verif", extra=dict(VERIF_REPO=wt, VERIF_EVIDENCE_DIR="/tmp/seed-evidence"))
-            viol = [l for l in out.splitlines() if l.startswith("VIOLATION")]
-            why = [l for l in out.splitlines() if l.startswith("#")]
-            if viol:
-                results[c] = dict(caught=True, line=viol[0], why=(why[0][:200] if why else ""))
+            lines = out.splitlines()
+            pairs = []            # (reason, VIOLATION line)
+            for n, l in enumerate(lines):
+                if l.startswith("VIOLATION"):
+                    pairs.append((lines[n - 1] if n and lines[n - 1].startswith("#") else "", l))
+            infra = ("failed to evaluate", "harness failed", "does not build", "proof obligation no longer checks", "cannot parse")
+            genuine = [p for p in pairs if not any(x in p[0] for x in infra)]
+            concrete = [p for p in genuine if "no-failing-input-found" not in p[1]]
+            viol = [p[1] for p in (concrete or genuine)]
+            why = [p[0] for p in (concrete or genuine)]
+            if pairs and not genuine:
+                results[c] = dict(caught=False, error="the check itself failed (infrastructure): " + pairs[0][0][:200])
+            elif viol:
+                results[c] = dict(caught=True, concrete_input=bool(concrete), line=viol[0], why=(why[0][:200] if why else ""))
                 # keep the replay next to the seeded change
                 m = re.search(r"replay=(\S+)", viol[0])
                 if m and os.path.exists(m.group(1)):
@@ -57,11 +76,12 @@ try:
         meta["checks"] = results
 finally:
     subprocess.run(["git", "-C", "/repo", "worktree", "remove", "--force", wt], capture_output=True)
+    mine = re.sub(r"\W", "_", wt)                  # only this run's scratch (other evaluations may be running)
     for d in os.listdir("/verif/run"):
-        if "seedev" in d:
+        if d.endswith(mine) or d.endswith(mine + "_search"):
             shutil.rmtree(os.path.join("/verif/run", d), ignore_errors=True)
     for d in os.listdir("/verif/run/bin") if os.path.isdir("/verif/run/bin") else []:
-        if "seedev" in d:
+        if mine in d:
             os.remove(os.path.join("/verif/run/bin", d))
 dst = "/verif/seeded/%s" % tag
 os.makedirs(dst, exist_ok=True)
@@ -69,6 +89,13 @@ shutil.copy(patch, os.path.join(dst, "patch.diff"))
 shutil.copy(demo, os.path.join(dst, "demo_test.go"))
 if os.path.exists(notes):
     meta["needs_to_manifest"] = open(notes).read()[:3000]
+if old_notes and "needs_to_manifest" not in meta:
+    meta["needs_to_manifest"] = old_notes
+notes_file = os.path.join(ROOT, "seeded", "NOTES.json")
+if os.path.exists(notes_file):
+    n = json.load(open(notes_file)).get(tag)
+    if n:
+        meta["strengthened"] = n
 json.dump(meta, open(os.path.join(dst, "meta.json"), "w"), indent=1)
-short = {c: ("CAUGHT" if r["caught"] else "missed") for c, r in meta.get("checks", {}).items()}
-print(prop, i, meta.get("clean_tree_with_demo"), meta.get("applies_to_current_head"), meta.get("patched_original_tests"), meta.get("patched_demo"), short)
+short = {c: ("CAUGHT" if r["caught"] else ("ERROR" if r.get("error") else "missed")) for c, r in meta.get("checks", {}).items()}
+print(tag, meta.get("clean_tree_with_demo"), meta.get("applies_to_current_head"), meta.get("patched_original_tests"), meta.get("patched_demo"), short)
